@@ -76,12 +76,12 @@ def st_units(families):
     return st.tuples(*[one(e) for e in entries]).map(list)
 
 
-def make_check(flags):
+def make_check(flags, env_extra=None, label=None):
     def check(units):
         import os
 
         here = os.path.dirname(os.path.dirname(os.path.abspath(__file__)))
-        got = child_python(CHILD, args=(here, json.dumps(units)), flags=flags)
+        got = child_python(CHILD, args=(here, json.dumps(units)), flags=flags, env_extra=env_extra)
         devs = []
         for u, g in zip(units, got):
             want = observe(u)
@@ -94,7 +94,7 @@ def make_check(flags):
                 detail = {k: (g.get(k), want.get(k)) for k in diff}
                 if "props" in diff and isinstance(g.get("props"), dict) and isinstance(want.get("props"), dict):
                     detail["props"] = {k: (g["props"].get(k), want["props"].get(k)) for k in set(g["props"]) | set(want["props"]) if g["props"].get(k) != want["props"].get(k)}
-                devs.append(Dev(f"{u['entry']}:differs_under_{'_'.join(flags).replace('-', '')}:{','.join(diff)}", f"child {' '.join(flags)} vs in-process: {json.dumps(detail, default=str)[:400]} unit={u}"))
+                devs.append(Dev(f"{u['entry']}:differs_under_{label or '_'.join(flags).replace('-', '')}:{','.join(diff)}", f"child {' '.join(flags)} {env_extra or ''} vs in-process: {json.dumps(detail, default=str)[:400]} unit={u}"))
         return devs, len(units)
 
     return check
@@ -102,12 +102,12 @@ def make_check(flags):
 
 def env_clauses(prop_id, families, n_quick=6, n_thorough=60):
     out = []
-    for tag, flags in (("O", ("-O",)), ("W_error", ("-W", "error"))):
+    for tag, flags, env_extra in (("O", ("-OO",), None), ("W_error", ("-W", "error"), None), ("hashseed", (), {"PYTHONHASHSEED": "424242"})):
         out.append(Clause(
             id=f"{prop_id}.interpreter_{tag}",
-            doc=f"the decoders of {', '.join(families)} run in a child interpreter started with {' '.join(flags)} give, unit by unit, the outcome, observed fields, reported length, "
-                "public properties and re-packed octets they give in this process (valid units and prefixes of valid units)",
-            strategy=(lambda families=families: st_units(families)), check=make_check(flags),
+            doc=f"the decoders of {', '.join(families)} run in a child interpreter started with {' '.join(flags) or 'another hash seed (PYTHONHASHSEED=424242; this process runs with 0)'} give, "
+                "unit by unit, the outcome, observed fields, reported length, public properties and re-packed octets they give in this process (valid units and prefixes of valid units)",
+            strategy=(lambda families=families: st_units(families)), check=make_check(flags, env_extra, tag),
             classify=lambda units: ["has truncated unit"] if any(True for u in units) else [], weight_by_evals=True,
             rule="each (unit, flag set) comparison is one evaluation",
             n={"quick": n_quick, "thorough": n_thorough}, shrink_cap=6,
